@@ -277,6 +277,88 @@ def parseTally (kv : Kv) : Option Tally :=
   | some a, some b, some c => some ⟨a, b, c⟩
   | _, _, _ => none
 
+/-! ## the builder: setters called in any order (`chain=<setter>,<setter>,…` in the case header)
+
+`ChaosLayer::builder()` and the two other builder types are plain records with one field per setting; every setter
+overwrites ITS field and nothing else, `build()` copies the fields. So the configuration a chain of setters DEMANDS is:
+for each kind of setting the value of the LAST setter of that kind, the builder's default (config.rs:181-191: 10 ms,
+100 ms, latency rate 0, no seed, `<unnamed>`) when the kind is never set — whatever else is called before, between or
+after, and in particular whatever the other latency bound is at that moment. Rates and names are opaque here (the
+rates reach the machine as thresholds reported by the harness). -/
+
+inductive Setter
+  | minLat (us : Nat)          -- `.min_latency(d)`, `d` in microseconds
+  | maxLat (us : Nat)          -- `.max_latency(d)`
+  | latRate (spec : String)    -- `.latency_rate(r)`
+  | errRate (spec : String)    -- `.error_rate(r)`
+  | seed (n : Nat)             -- `.seed(n)`
+  | name (s : String)          -- `.name(s)`
+  | errFn                      -- `.error_fn(f)`
+  | hooks                      -- the three `on_…` listeners
+deriving DecidableEq, Repr, Inhabited
+
+/-- the fields of the builder -/
+structure Built where
+  minUs   : Nat := 10000
+  maxUs   : Nat := 100000
+  latRate : Option String := none
+  errRate : Option String := none
+  seed    : Option Nat := none
+  name    : Option String := none
+  errFn   : Bool := false
+  hooks   : Bool := false
+deriving DecidableEq, Repr, Inhabited
+
+/-- one setter: its own field, nothing else -/
+def Built.set (b : Built) : Setter → Built
+  | .minLat us => { b with minUs := us }
+  | .maxLat us => { b with maxUs := us }
+  | .latRate r => { b with latRate := some r }
+  | .errRate r => { b with errRate := some r }
+  | .seed n => { b with seed := some n }
+  | .name n => { b with name := some n }
+  | .errFn => { b with errFn := true }
+  | .hooks => { b with hooks := true }
+
+/-- the builder after the setters of `chain`, called in that order on a fresh builder -/
+def buildChain (chain : List Setter) : Built := chain.foldl Built.set {}
+
+/-- the last `.min_latency(..)` / `.max_latency(..)` of a chain (`d` when there is none): looks at setters of that one
+kind only -/
+def lastMin (d : Nat) : List Setter → Nat
+  | [] => d
+  | .minLat us :: r => lastMin us r
+  | _ :: r => lastMin d r
+def lastMax (d : Nat) : List Setter → Nat
+  | [] => d
+  | .maxLat us :: r => lastMax us r
+  | _ :: r => lastMax d r
+
+/-- `m:<µs>` | `M:<µs>` | `l:<rate spec>` | `e:<rate spec>` | `s:<seed>` | `n:<name>` | `f` | `h` -/
+def parseSetter (t : String) : Option Setter :=
+  match t.splitOn ":" with
+  | ["m", v] => some (.minLat (v.toNat?.getD 0))
+  | ["M", v] => some (.maxLat (v.toNat?.getD 0))
+  | ["l", v] => some (.latRate v)
+  | ["e", v] => some (.errRate v)
+  | ["s", v] => some (.seed (v.toNat?.getD 0))
+  | ["n", v] => some (.name v)
+  | ["f"] => some .errFn
+  | ["h"] => some .hooks
+  | _ => none
+
+def parseChain (s : String) : List Setter := (s.splitOn ",").filterMap parseSetter
+
+/-- the latency bounds of the configuration, in whole milliseconds (`Duration::as_millis` truncates) -/
+def Built.bounds (b : Built) : Nat × Nat := (b.minUs / 1000, b.maxUs / 1000)
+
+/-- The bounds the case header demands: with `chain=` those of the chain (last setter of each kind, defaults otherwise),
+without it `min_us=` / `max_us=` (the fixed builder paths of `order=`, each bound set exactly once). -/
+def headerBounds (kv : Kv) : Nat × Nat :=
+  match kv.get "chain" with
+  | some c => (buildChain (parseChain c)).bounds
+  | none => (kv.nat "min_us" 0 / 1000, kv.nat "max_us" 0 / 1000)
+
 /-! ## line protocol -/
 
 /-- `@dec=e` injected error, `@dec=p` passed through, `@dec=l<ms>` delayed by `ms` milliseconds: the decision the
@@ -387,7 +469,7 @@ part of the run); admitted ⇒ the machine's `arrive`. -/
 def machine : Machine where
   σ := Proto × Cfg × State
   init kv :=
-    let cfg : Cfg := { eT := 0, lT := 0, minMs := kv.nat "min_us" 0 / 1000, maxMs := kv.nat "max_us" 0 / 1000 }
+    let cfg : Cfg := { eT := 0, lT := 0, minMs := (headerBounds kv).1, maxMs := (headerBounds kv).2 }
     ({ strict := (kv.get "ready").isSome, script := parseReady (kv.str "ready" ""),
        dflt := if kv.nat "handles" 0 = 0 then .clone else .template }, cfg, init)
   step := fun (p, cfg0, s) ws =>
